@@ -15,7 +15,9 @@
 (***************************************************************************)
 EXTENDS XUsage, TLC, Json
 
-CONSTANTS NT, NP, MaxOps, MaxSz
+CONSTANTS NT, NP, MaxOps, MaxSz,
+          Sim      \* TRUE (-simulate): one random candidate per step instead of all of them (TLC's simulator
+                   \* otherwise builds every successor before it picks one)
 
 VARIABLES hist, u, big, done, last
 
@@ -36,10 +38,22 @@ Other == { Op("goc", tn, 0, 0, 0, "-") : tn \in 1..NT }
     \cup { Op("new", 0, 0, 0, 0, "-") }
     \cup { Op("damage", 0, 0, 0, p, h) : p \in 1..NP, h \in {"trunc", "version", "remove"} }
 
+\* -simulate: weighted choice of the kind of call, then a random candidate of that kind; a candidate that is not
+\* enabled (recording through a handle never obtained) is replaced by obtaining the handle
+OfKind(ts) == { o \in Other : o.t \in ts }
+Pick(S) == IF ~Sim THEN S
+           ELSE LET w == RandomElement(1..10)
+                    o == CASE w <= 4 -> RandomElement(RecSet)
+                           [] w = 5  -> RandomElement(OfKind({"goc"}))
+                           [] w \in {6, 7} -> RandomElement(OfKind({"persist"}))
+                           [] w \in {8, 9} -> RandomElement(OfKind({"restore"}))
+                           [] OTHER  -> RandomElement(OfKind({"damage", "new"}))
+                IN {IF o.t \in RecOps /\ o.how = "held" /\ u.held[o.tn] = 0 THEN Op("goc", o.tn, 0, 0, 0, "-") ELSE o}
+
 Init == hist = <<>> /\ u = InitU(NT, NP) /\ big \in BOOLEAN /\ done = FALSE /\ last = Op("-", 0, 0, 0, 0, "-")
 
 Step == /\ Len(hist) < MaxOps /\ ~done /\ done' = FALSE /\ big' = big
-        /\ \E op \in RecSet \cup Other :
+        /\ \E op \in Pick(RecSet \cup Other) :
              /\ (op.t \in RecOps /\ op.how = "held") => u.held[op.tn] # 0
              /\ u' = Apply(u, op).u
              /\ hist' = Append(hist, op)
